@@ -56,6 +56,10 @@ type Obs struct {
 	Vet        []string   `json:"vet,omitempty"`
 	GenLog     string     `json:"gen_log,omitempty"`
 	Secs       float64    `json:"secs"`
+	// Regen: the observed run was a REgeneration: the first output was put back lengthened by the second
+	// half of itself (a longer previous output, as after removing values / switching codecs off) and the
+	// generator was run again over it; what is judged is the file this second run left.
+	Regen bool `json:"regenerated_over_longer_previous_output,omitempty"`
 }
 
 // Ref records how the generated file refers to the type of one trait column (the result type
@@ -715,14 +719,34 @@ func main() {
 	t0 := time.Now()
 	var wg sync.WaitGroup
 	sem := make(chan struct{}, *par)
-	for _, p := range pk {
+	for pi, p := range pk {
 		wg.Add(1)
-		go func(p *pkgState) {
+		go func(pi int, p *pkgState) {
 			defer wg.Done()
 			sem <- struct{}{}
 			defer func() { <-sem }()
 			t := time.Now()
 			rc, log := run(*farm, env, 5*time.Minute, "go", "generate", "./"+p.spec.ID)
+			if rc == 0 && (p.spec.Regen || (*mode != "spec" && (pi+int(*seed))%6 == 0)) {
+				p.spec.Regen = true
+				// a generator is normally run over its own previous output: lengthen what it just wrote
+				// and run it again; the result must be the same file (nothing of the old content left)
+				ok := len(p.genFiles) > 0
+				for _, g := range p.genFiles {
+					b, err := os.ReadFile(g)
+					if err != nil || len(b) < 40 {
+						ok = false
+						break
+					}
+					if os.WriteFile(g, append(append([]byte{}, b...), b[len(b)/2:]...), 0o644) != nil {
+						ok = false
+					}
+				}
+				if ok {
+					rc, log = run(*farm, env, 5*time.Minute, "go", "generate", "./"+p.spec.ID)
+					p.c.Obs.Regen = true
+				}
+			}
 			p.c.Obs.Exit = rc
 			p.c.Obs.Fallback = strings.Contains(log, "formatting of source file failed")
 			p.c.Obs.GenLog = tail(log, 1500)
@@ -733,7 +757,7 @@ func main() {
 					p.c.Obs.File = false
 				}
 			}
-		}(p)
+		}(pi, p)
 	}
 	wg.Wait()
 	fmt.Fprintf(os.Stderr, "c13: go generate of %d packages: %.1fs\n", len(pk), time.Since(t0).Seconds())
